@@ -171,26 +171,68 @@ Qed.
 
 (* ---- html aggregate *)
 
-Lemma html_aggregate_fold : forall rs a,
-  fold_left (fun a r => let s := raw_stats r in
-    {| l_total := l_total a + l_total s; l_code := l_code a + l_code s;
-       l_comment := l_comment a + l_comment s; l_blank := l_blank a + l_blank s |}) rs a =
-  {| l_total := l_total a + sumN (fun r => l_total (raw_stats r)) rs;
-     l_code := l_code a + sumN (fun r => l_code (raw_stats r)) rs;
-     l_comment := l_comment a + sumN (fun r => l_comment (raw_stats r)) rs;
-     l_blank := l_blank a + sumN (fun r => l_blank (raw_stats r)) rs |}.
+Definition stats_sums {A} (st : A -> lstats) (l : list A) : lstats :=
+  {| l_total := sumN (fun x => l_total (st x)) l; l_code := sumN (fun x => l_code (st x)) l;
+     l_comment := sumN (fun x => l_comment (st x)) l; l_blank := sumN (fun x => l_blank (st x)) l |}.
+
+Lemma add_stats_sums : forall a t c m b,
+  add_stats a {| l_total := t; l_code := c; l_comment := m; l_blank := b |} =
+  {| l_total := l_total a + t; l_code := l_code a + c; l_comment := l_comment a + m; l_blank := l_blank a + b |}.
+Proof. reflexivity. Qed.
+
+Lemma html_aggregate_v0_fold : forall rs a,
+  fold_left (fun a r => add_stats a (raw_stats r)) rs a = add_stats a (stats_sums raw_stats rs).
 Proof.
   induction rs as [|r rs IH]; intro a.
-  - cbn. destruct a. cbn. repeat rewrite N.add_0_r. reflexivity.
-  - cbn [fold_left sumN]. rewrite IH. cbn. f_equal; lia.
+  - cbn. destruct a. unfold add_stats. cbn. repeat rewrite N.add_0_r. reflexivity.
+  - cbn [fold_left]. rewrite IH. unfold add_stats, stats_sums. cbn [sumN l_total l_code l_comment l_blank]. f_equal; lia.
 Qed.
 
-Lemma html_aggregate_sums : forall rs,
-  html_aggregate rs = {| l_total := sumN (fun r => l_total (raw_stats r)) rs;
-                         l_code := sumN (fun r => l_code (raw_stats r)) rs;
-                         l_comment := sumN (fun r => l_comment (raw_stats r)) rs;
-                         l_blank := sumN (fun r => l_blank (raw_stats r)) rs |}.
-Proof. intro rs. unfold html_aggregate. rewrite html_aggregate_fold. reflexivity. Qed.
+Lemma add_stats_0_l : forall s, add_stats lstats0 s = s.
+Proof. intros [t c m b]. reflexivity. Qed.
+
+Lemma html_aggregate_v0_sums : forall rs, html_aggregate_v0 rs = stats_sums raw_stats rs.
+Proof. intro rs. unfold html_aggregate_v0. rewrite html_aggregate_v0_fold. apply add_stats_0_l. Qed.
+
+Lemma html_aggregate_fold : forall rs a,
+  fold_left (fun a r => if r_structure r then a else add_stats a (raw_stats r)) rs a =
+  fold_left (fun a r => add_stats a (raw_stats r)) (filter is_content rs) a.
+Proof.
+  induction rs as [|r rs IH]; intro a; [reflexivity|].
+  cbn [fold_left filter]. unfold is_content at 1. destruct (r_structure r); cbn [negb fold_left]; apply IH.
+Qed.
+
+(* the repaired cards are the sums over the content results only *)
+Lemma html_aggregate_sums : forall rs, html_aggregate rs = stats_sums raw_stats (filter is_content rs).
+Proof. intro rs. unfold html_aggregate. rewrite html_aggregate_fold. apply html_aggregate_v0_sums. Qed.
+
+Lemma html_aggregate_is_v0_of_content : forall rs, html_aggregate rs = html_aggregate_v0 (filter is_content rs).
+Proof. intro rs. rewrite html_aggregate_sums, html_aggregate_v0_sums. reflexivity. Qed.
+
+(* no structure result in the list: both generations agree *)
+Lemma html_aggregate_no_structure : forall rs, forallb is_content rs = true -> html_aggregate rs = html_aggregate_v0 rs.
+Proof.
+  intros rs H. rewrite html_aggregate_is_v0_of_content. f_equal.
+  induction rs as [|r rs IH]; [reflexivity|]. cbn [forallb] in H. apply andb_true_iff in H. destruct H as [H1 H2].
+  cbn [filter]. rewrite H1. f_equal. apply IH. exact H2.
+Qed.
+
+(* a structure result adds its synthetic count to the v0 cards and nothing to the repaired ones *)
+Lemma html_aggregate_structure_inert : forall rs1 rs2 path st actual limit reason,
+  html_aggregate (rs1 ++ structure_result path st actual limit reason :: rs2) = html_aggregate (rs1 ++ rs2) /\
+  l_total (html_aggregate_v0 (rs1 ++ structure_result path st actual limit reason :: rs2)) =
+    l_total (html_aggregate_v0 (rs1 ++ rs2)) + actual.
+Proof.
+  intros. split.
+  - rewrite !html_aggregate_sums, !filter_app. reflexivity.
+  - rewrite !html_aggregate_v0_sums. unfold stats_sums. cbn [l_total]. rewrite !sumN_app. cbn [sumN]. cbn. lia.
+Qed.
+
+Lemma sumN_map : forall A B (g : A -> B) (f : B -> N) l, sumN f (map g l) = sumN (fun x => f (g x)) l.
+Proof. induction l as [|x t IH]; cbn [map sumN]; [reflexivity | rewrite IH; reflexivity]. Qed.
+
+Lemma stats_sums_map : forall A B (g : A -> B) (st : B -> lstats) l, stats_sums st (map g l) = stats_sums (fun x => st (g x)) l.
+Proof. intros. unfold stats_sums. rewrite !sumN_map. reflexivity. Qed.
 
 (* ================================================================ check vs stats *)
 
@@ -281,6 +323,24 @@ Lemma project_totals_sums : forall files,
      t_comment := sumN (fun f => l_comment (f_stats f)) files;
      t_blank := sumN (fun f => l_blank (f_stats f)) files |}.
 Proof. intro files. unfold project_totals. rewrite totals_fold. reflexivity. Qed.
+
+(* one run: the content results of check stand for the scanned files (same counts, any order of
+   either list does not matter for sums); then the html cards are the project totals that
+   stats summary and the --report-json side-car print *)
+Lemma html_totals_are_project_totals : forall rs files,
+  Permutation (map raw_stats (filter is_content rs)) (map f_stats files) ->
+  html_aggregate rs = {| l_total := t_lines (project_totals files); l_code := t_code (project_totals files);
+                         l_comment := t_comment (project_totals files); l_blank := t_blank (project_totals files) |}.
+Proof.
+  intros rs files H. rewrite html_aggregate_sums, project_totals_sums. cbn [t_lines t_code t_comment t_blank].
+  unfold stats_sums.
+  rewrite <- (sumN_map _ _ raw_stats l_total), <- (sumN_map _ _ raw_stats l_code),
+          <- (sumN_map _ _ raw_stats l_comment), <- (sumN_map _ _ raw_stats l_blank).
+  rewrite <- (sumN_map _ _ f_stats l_total), <- (sumN_map _ _ f_stats l_code),
+          <- (sumN_map _ _ f_stats l_comment), <- (sumN_map _ _ f_stats l_blank).
+  rewrite (sumN_perm _ l_total _ _ H), (sumN_perm _ l_code _ _ H), (sumN_perm _ l_comment _ _ H), (sumN_perm _ l_blank _ _ H).
+  reflexivity.
+Qed.
 
 (* ================================================================ HashMap order = any permutation *)
 
